@@ -17,8 +17,8 @@ from concurrent.futures import ThreadPoolExecutor
 
 LEVEL = "translation_validation"
 
-QUICK = ["quick_fmt", "quick_w", "quick_shadow", "quick_sel", "quick_lit", "quick_main"]
-THOROUGH = ["thorough_fmt", "thorough_shadow", "thorough_shadowpos", "thorough_litmain", "thorough_selmain",
+QUICK = ["quick_fmt", "quick_w", "quick_shfmt", "quick_shadow", "quick_sel", "quick_lit", "quick_main"]
+THOROUGH = ["thorough_fmt", "thorough_shadow", "thorough_litmain", "thorough_selmain",
             "thorough_mainfn"]
 
 
